@@ -62,7 +62,7 @@ man = {
     ],
     "checks": checks,
     "not_applicable": na,
-    "notes": "Technique family: static analysis only. Exit 0 = all rule instances hold; exit 1 + VIOLATION = unlisted violation; exit 2 + ANALYSIS-ERROR = analysis could not be performed (tree does not compile / anchor missing). Known findings: known_findings.json (2 unrepaired, both only with feature marksweep_as_nonmoving; 15 repaired with fix: commits in /repo). Seeded property-breaking changes: seeded/ (105, all detected); behaviour-preserving refactorings: seeded-neutral/ (36, all silent). Demonstrations of the defects found after the design: findings/.",
+    "notes": "Technique family: static analysis only. Exit 0 = all rule instances hold; exit 1 + VIOLATION = unlisted violation; exit 2 + ANALYSIS-ERROR = analysis could not be performed (tree does not compile / anchor missing). Known findings: known_findings.json (2 unrepaired, both only with feature marksweep_as_nonmoving; 15 repaired with fix: commits in /repo). Seeded property-breaking changes: seeded/ (%d, all detected by the check of the property they break); behaviour-preserving refactorings: seeded-neutral/ (%d, all silent). Demonstrations of the defects found after the design: findings/." % (len(glob.glob(os.path.join(ROOT, "seeded", "*", "meta.json"))), len(glob.glob(os.path.join(ROOT, "seeded-neutral", "*", "meta.json")))),
 }
 json.dump(man, open(os.path.join(ROOT, "MANIFEST.json"), "w"), indent=1)
 print("checks:", [c["property_id"] for c in checks])
